@@ -197,10 +197,15 @@ class PeriodicSensor(Sensor):
         self.data['time'] = []
         self._schedule_next_sense()
 
-    def _periodic_sense(self):
+    def _collect_data(self):
+        # Every measurement is time stamped, including the ones taken
+        # by calling sense() directly.
         self.data['time'].append(self._env.now)
         if len(self.data['time']) > self._data_capacity:
             self.data['time'].pop(0)  # drop oldest data
+        super()._collect_data()
+
+    def _periodic_sense(self):
         self.sense()
         self._schedule_next_sense()
 
